@@ -425,7 +425,7 @@ ErrClose ==     \* non-critical protocol error: close(1002, text) then forced di
 
 \* final state of the descriptors: one entry per socket that was handed to the session, one per selector
 EndRec(sockst, selst) ==
-  [k |-> "end", socks |-> IF sockst = "none" THEN <<>> ELSE <<[closed |-> sockst # "open", alive |-> FALSE]>>,
+  [k |-> "end", socks |-> IF sockst = "none" THEN <<>> ELSE <<[closed |-> sockst # "open", alive |-> FALSE, handed |-> TRUE]>>,
    sels |-> IF L.sel = "none" THEN <<>> ELSE <<[closed |-> (IF L.sel = "open" THEN selst = "closed" ELSE TRUE)]>>]
 
 \* ---- loop exits -----------------------------------------------------------------------------------
